@@ -242,5 +242,8 @@ func init() {
 	for _, id := range []string{"C08", "C03", "C02"} {
 		extendProp(id, nn, nnF, func(c *Ctx) { defer c.cleanup(); c.scanRun("newline-neutral") })
 	}
+	extendProp("C18", "pos-distinct: in every grammar action each node that gets a position gets the result of its own call of the position builder (one call = one object of the pool): no two nodes of an action hold the result of the same call, and none takes over the Position of an existing node - the pool's distinctness guarantee reaches the tree only if its client does not hand one object to two owners (seed C18-12: one `pos` local stored in a variable node and in its name).",
+		[]report.Floor{{Rule: "pos-distinct", What: "nodes", Min: 850}},
+		func(c *Ctx) { defer c.cleanup(); c.flowFixture("pos-distinct", flowRules["pos-distinct"]); c.flowRule("pos-distinct", flowRules["pos-distinct"]) })
 	properties["PO"] = &Property{Level: "other", Run: func(c *Ctx) { defer c.cleanup(); c.presenceOracle() }}
 }
